@@ -14,7 +14,7 @@ package worker
 // StartContainer: a container is started only on a worker of the requested
 // instance type that is idle and whose idle behaviour is "run" (never held,
 // draining, booting or shut down); false iff no such worker exists.
-//@ func Pool.StartContainer property C14
+//@ func Pool.StartContainer property C14,C16
 //@   calls worker.startContainer#1: requires wkr != nil && wkr.instType == it && wkr.state == StateIdle && wkr.idleBehavior == IdleBehaviorRun && $0 == ctr
 //@   loop 1: invariant it == old(it) && ctr == old(ctr) && (wkr != nil ==> wkr.instType == it && wkr.state == StateIdle && wkr.idleBehavior == IdleBehaviorRun)
 
@@ -98,6 +98,13 @@ package worker
 //@   ensures !has(wkr.running, uuid) || old(has(wkr.running, uuid) && wkr.running[uuid] == nil)
 //@   ensures forall u string :: u != uuid ==> dom(wkr.running)[u] == old(dom(wkr.running)[u]) && wkr.running[u] == old(wkr.running[u])
 //@   ensures old(has(wkr.running, uuid) && wkr.running[uuid] != nil) && wkr.wp.exited != nil ==> has(wkr.wp.exited, uuid)
+
+// onUnkillable (the kill loop gave up): the process may well be alive, so the
+// container stays in the running set - the worker is drained, nothing else;
+// in particular the runner is not closed (closing it would let the scheduler
+// start the container a second time elsewhere).
+//@ func worker.onUnkillable property C14 safety -nil
+//@   only calls: worker.setIdleBehavior
 
 // updateRunning: after a probe, every reported container is in the running set
 // (moved over from "starting" if we started it) and only containers the probe
